@@ -226,7 +226,7 @@ func rulesC04(p *Prog, r *Report) {
 					if i == ei {
 						continue
 					}
-					if !(part == "nil" || part == "bool:F" || part == `const:""` || part == "const:0") {
+					if !(part == "nil" || part == "bool:F" || part == `const:""` || part == "const:0" || part == "zero-struct") {
 						bad = append(bad, fmt.Sprintf("(%s)", tup))
 					}
 				}
